@@ -36,8 +36,9 @@ const basePreamble = `(set-option :produce-models true)
 (declare-sort Func 0)
 (declare-const func_nil Func)
 (define-sort F64 () (_ FloatingPoint 11 53))
-(declare-fun u2f (Int) F64)
-(declare-fun f2u (F64) Int)
+(define-fun u2f ((x Int)) F64 ((_ to_fp_unsigned 11 53) RNE ((_ int2bv 64) x)))
+(define-fun i2f ((x Int)) F64 ((_ to_fp 11 53) RNE ((_ int2bv 64) x)))
+(define-fun f2u ((x F64)) Int (bv2nat ((_ fp.to_ubv 64) RTZ x)))
 (define-fun go_div ((a Int) (b Int)) Int (ite (>= a 0) (ite (> b 0) (div a b) (- (div a (- b)))) (ite (> b 0) (- (div (- a) b)) (div (- a) (- b)))))
 (define-fun go_rem ((a Int) (b Int)) Int (- a (* b (go_div a b))))
 `
